@@ -15,6 +15,7 @@ def run(tier):
     bl = hjcommon.QUICK_BOUNDS if tier == 'quick' else hjcommon.THOROUGH_BOUNDS + hjcommon.HUGE_BOUNDS
     tot = hjcommon.explore(rep, ('C08',), bl, ('R',))
     hjcommon.explore_codecs(rep, ('C08',), tier, ('R',))
+    hjcommon.jumping_orders(rep, tier)
     c = rep.coverage
     c['log_replays'] = tot['monitors']
     c['card_round_trips'] = tot['core_states']
